@@ -755,13 +755,62 @@ pub fn run(thorough: bool) -> i32 {
         rep.cov("part4_oti_attribute_documents", n_oti as u64);
     }
 
+    // ---- part 5: valid FDT (OTI and content encoding in the FDT) x every payload length pattern ----
+    {
+        let exp_ok = unix_to_ntp_secs(EPOCH_2027 + 7200).to_string();
+        let mut hists: Vec<Vec<Vec<u8>>> = Vec::new();
+        for cenc in [None, Some("gzip"), Some("zlib"), Some("deflate")] {
+            for tl in ["21", "16", "1", "0"] {
+                for cl in [None, Some("0"), Some("5"), Some("100000")] {
+                    let mut f = FileX::new("5", "file:///x").attr("Transfer-Length", tl).attr("FEC-OTI-FEC-Encoding-ID", "0").attr("FEC-OTI-Maximum-Source-Block-Length", "2").attr("FEC-OTI-Encoding-Symbol-Length", "8");
+                    f = f.attr_opt("Content-Length", cl.map(|s| s.to_string())).attr_opt("Content-Encoding", cenc.map(|s| s.to_string()));
+                    let fdt = fdt_packets(TSI, 7, FdtX::new(&exp_ok).file(f).xml().as_bytes(), 8192, None, None).remove(0);
+                    // payload length of each of the 3 symbols: every combination of {0, 1, 7, 8, 9}
+                    let lens = [0usize, 1, 7, 8, 9];
+                    for a in lens {
+                        for b in lens {
+                            for c in lens {
+                                let mut h = vec![fdt.clone()];
+                                for (j, l) in [a, b, c].into_iter().enumerate() {
+                                    let mut sp = rfc::Spec::minimal(rfc::FEC_NOCODE, TSI, 5);
+                                    sp.payload_id = rfc::pid(rfc::FEC_NOCODE, (j / 2) as u32, (j % 2) as u32, 0, 8);
+                                    sp.payload = vec![0x1f; l];
+                                    sp.b = j == 2;
+                                    h.push(rfc::encode(&sp));
+                                }
+                                hists.push(h);
+                            }
+                        }
+                    }
+                }
+            }
+        }
+        let fu2 = fu.clone();
+        let res = par_map(&hists, |_, h| {
+            let mut g = G::default();
+            let mut found: Found = BTreeMap::new();
+            let refs: Vec<&[u8]> = h.iter().map(|p| &p[..]).collect();
+            let r = run_history(&refs, Some(&fu2), &mut g);
+            note(&mut found, r, &refs);
+            (g, found)
+        });
+        let before = g.histories;
+        for (gg, ff) in res {
+            g.merge(&gg);
+            for (k, v) in ff {
+                found.entry(k).and_modify(|e| e.2 += v.2).or_insert(v);
+            }
+        }
+        rep.cov("part5_payload_length_x_cenc_histories", g.histories - before);
+    }
+
     for (key, (what, case, n)) in found {
         let v = Violation { key, what: format!("{} [{} case(s)]", what, n), case };
         rep.add(v);
     }
     rep.cov("evaluations", g.histories);
     rep.cov("distinct_nontrivial", g.histories);
-    rep.cov("rule", "four exhaustive families, each history pushed into a fresh real MultiReceiver (cache limit 64 kB) with catch_unwind, overflow checks on, a 64 MB heap ceiling measured by a counting allocator, a watchdog, and - after any rejected packet - a valid follow-up session that must still be delivered: (1) all byte strings of length 0..3; (2) every packet of a 22-session corpus x every header byte x substitutions (all 255 in thorough) and every truncation, in context; (3) products of boundary values of every EXT_FTI field x payload-id field x payload length per scheme, and of version/flags/C/S/O/H/HDR_LEN/HEL, as 1-3 packet histories with and without an FDT; (4) crafted FDT instances: product of OTI attribute values at File and instance level, TOI x lengths x Expires x Content-Encoding, every truncation and every single-byte substitution of a valid instance and malformed documents, each followed/preceded by object packets. Histories are distinct by construction.");
+    rep.cov("rule", "four exhaustive families, each history pushed into a fresh real MultiReceiver (cache limit 64 kB) with catch_unwind, overflow checks on, a 64 MB heap ceiling measured by a counting allocator, a watchdog, and - after any rejected packet - a valid follow-up session that must still be delivered: (1) all byte strings of length 0..3; (2) every packet of a 22-session corpus x every header byte x substitutions (all 255 in thorough) and every truncation, in context; (3) products of boundary values of every EXT_FTI field x payload-id field x payload length per scheme, and of version/flags/C/S/O/H/HDR_LEN/HEL, as 1-3 packet histories with and without an FDT; (4) crafted FDT instances: product of OTI attribute values at File and instance level, TOI x lengths x Expires x Content-Encoding, every truncation and every single-byte substitution of a valid instance and malformed documents, each followed/preceded by object packets; (5) a valid FDT carrying the OTI and every content encoding x transfer / content lengths x every combination of payload lengths {0,1,E-1,E,E+1} of the object's three symbols. Histories are distinct by construction.");
     rep.cov("exhaustive", true);
     rep.cov("pushes", g.pushes);
     rep.cov("answers_ok", g.ok);
